@@ -1214,7 +1214,7 @@ Qed.
 (* what each event does to the table, C09_accounting *)
 Definition accounting (ch : chan) (ev : event) (ch' : chan) : Prop :=
   match ev with
-  | EvSend _ | EvAdvance _ | EvCancel => forall b, kv b (ch_servers ch') = kv b (ch_servers ch)
+  | EvSend _ | EvAdvance _ | EvCancel | EvTruncated _ _ => forall b, kv b (ch_servers ch') = kv b (ch_servers ch)
   | EvAnswer label =>
     forall a, find_attempt label (ch_inflight ch) = Some a -> kv_after_good (at_server a) (ch_servers ch) (ch_servers ch')
   | EvConnLost a _ => kv_after_fail a (ch_servers ch) (ch_servers ch')
@@ -1258,7 +1258,7 @@ Lemma step_sound ch ev ch' obs m :
   wf (ch_servers ch) -> agree m ch -> step ch ev = Ok (ch', obs) ->
   wf (ch_servers ch') /\ accounting ch ev ch' /\ exists m', mon_run m obs = Some m' /\ agree m' ch'.
 Proof.
-  intros Hwf Hag H. destruct ev as [c|label|label status c|label c|ms| |a0 cs0|addrs cs]; cbn [step] in H.
+  intros Hwf Hag H. destruct ev as [c|label|label status c|label c|ms| |tl tc|a0 cs0|addrs cs]; cbn [step] in H.
   - (* EvSend *)
     destruct (Nat.eqb (length (ch_servers ch)) 0).
     + injection H as <- <-. split; [exact Hwf|]. split; [intros b; reflexivity|].
@@ -1308,6 +1308,17 @@ Proof.
     exists m. split; [apply mon_run_dones|].
     destruct Hag as (Hrot & Hnd & Hk). split; [exact Hrot|]. split; [exact Hnd|].
     intros b. cbn [ch_servers set_inflight set_servers]. rewrite Hk2. apply Hk.
+  - (* EvTruncated *)
+    destruct (find_attempt tl (ch_inflight ch)) as [a|] eqn:Hfa; [|discriminate].
+    destruct (at_probe a); [discriminate|].
+    set (ch0 := set_inflight ch (remove_attempt tl (ch_inflight ch))) in H.
+    assert (wf (ch_servers ch0)) as Hwf' by exact Hwf.
+    assert (agree m ch0) as Hag' by exact Hag.
+    destruct (send_fresh_shape _ _ _ _ _ _ _ Hwf' H) as (Hsh & Hcfg).
+    pose proof (fresh_shape_key _ _ _ _ _ Hsh) as Hkey. cbn [ch_servers set_inflight ch0] in Hkey.
+    split; [eapply wf_key; [symmetry; exact Hkey|exact Hwf]|]. split.
+    + intros b. apply kv_key; [|exact Hkey]. apply (nodup_addr_key (ch_servers ch)); [symmetry; exact Hkey|apply (wf_addr _ Hwf)].
+    + exists m. apply (fresh_accept m ch0 _ _ ch' obs Hwf' Hag' Hsh Hcfg).
   - (* EvConnLost *)
     destruct (find_addr a0 (ch_servers ch)) as [s0|] eqn:Hf0; [|discriminate].
     destruct (server_increment_failures (ch_now ch) (ch_delay ch) a0 (ch_servers ch)) as [l1| |] eqn:Hinc;
@@ -1691,7 +1702,7 @@ Record inv (bm : budget_mon) (ch : chan) : Prop := {
   i_tries : b_tries bm = ch_tries ch;
   i_nsrv : b_nsrv bm = length (ch_servers ch);
   i_cnt : forall a, In a (ch_inflight ch) -> at_probe a = false ->
-            Z.of_nat (count_occ Nat.eq_dec (b_txs bm) (at_label a)) = at_try a + 1;
+            at_try a + 1 <= Z.of_nat (count_occ Nat.eq_dec (b_txs bm) (at_label a));
   i_txlab : forall l, In l (b_txs bm) -> (l < ch_next_label ch)%nat
 }.
 
@@ -1703,16 +1714,16 @@ Lemma fresh_inv bm ch e label try err c ch' obs :
   wf (ch_servers ch) -> labels_ok ch -> probe_inv_but e ch ->
   b_tries bm = ch_tries ch -> b_nsrv bm = length (ch_servers ch) ->
   (forall a, In a (ch_inflight ch) -> at_probe a = false ->
-     Z.of_nat (count_occ Nat.eq_dec (b_txs bm) (at_label a)) = at_try a + 1) ->
+     at_try a + 1 <= Z.of_nat (count_occ Nat.eq_dec (b_txs bm) (at_label a))) ->
   (forall l, In l (b_txs bm) -> (l < ch_next_label ch)%nat) ->
   (label < ch_next_label ch)%nat -> ~ In label (map at_label (ch_inflight ch)) ->
-  Z.of_nat (count_occ Nat.eq_dec (b_txs bm) label) = try ->
+  try <= Z.of_nat (count_occ Nat.eq_dec (b_txs bm) label) ->
   send_fresh ch label try err c = Ok (ch', obs) ->
   exists bm', bmon_run bm obs = Some bm' /\
     wf (ch_servers ch') /\ labels_ok ch' /\ probe_inv_but e ch' /\
     b_tries bm' = ch_tries ch' /\ b_nsrv bm' = length (ch_servers ch') /\
     (forall a, In a (ch_inflight ch') -> at_probe a = false ->
-       Z.of_nat (count_occ Nat.eq_dec (b_txs bm') (at_label a)) = at_try a + 1) /\
+       at_try a + 1 <= Z.of_nat (count_occ Nat.eq_dec (b_txs bm') (at_label a))) /\
     (forall l, In l (b_txs bm') -> (l < ch_next_label ch')%nat) /\
     (ch_next_label ch <= ch_next_label ch')%nat /\
     (forall x, In x (ch_inflight ch) -> In x (ch_inflight ch')) /\
@@ -1734,7 +1745,7 @@ Proof.
       split; [exact Hcnt|]. split; [exact Htx|]. split; [lia|]. split; [intros x Hx; exact Hx|reflexivity].
   - (* plain transmission *)
     exists (add_tx bm label). split; [reflexivity|].
-    assert (forall a, In a (ch_inflight ch') <-> In a (ch_inflight ch) \/ a = mk_attempt label (sv_addr s) (Z.of_nat (count_occ Nat.eq_dec (b_txs bm) label)) err false) as Hin.
+    assert (forall a, In a (ch_inflight ch') <-> In a (ch_inflight ch) \/ a = mk_attempt label (sv_addr s) try err false) as Hin.
     { intros a. rewrite Hinf, in_app_iff. cbn [In]. intuition congruence. }
     split; [rewrite Hsv; exact Hwf|]. split.
     { split.
@@ -1756,7 +1767,6 @@ Proof.
     assert (key (set_probe ps true) = key ps) as Hk by reflexivity.
     pose proof (replace_addr_key (set_probe ps true) (ch_servers ch) ps Hfps Hk) as Hkey.
     exists (add_tx bm label). split; [reflexivity|].
-    rewrite Ht0 in Hinf.
     set (ua := mk_attempt label (sv_addr s) 0 err false).
     set (pa := mk_attempt (ch_next_label ch) (sv_addr ps) 0 ARES_SUCCESS true).
     assert (forall a, In a (ch_inflight ch') <-> In a (ch_inflight ch) \/ a = ua \/ a = pa) as Hin.
@@ -1800,10 +1810,10 @@ Lemma requeue_inv bm ch a status c ch' obs :
   probe_inv_but (if at_probe a then Some (at_server a) else None) ch ->
   b_tries bm = ch_tries ch -> b_nsrv bm = length (ch_servers ch) ->
   (forall x, In x (ch_inflight ch) -> at_probe x = false ->
-     Z.of_nat (count_occ Nat.eq_dec (b_txs bm) (at_label x)) = at_try x + 1) ->
+     at_try x + 1 <= Z.of_nat (count_occ Nat.eq_dec (b_txs bm) (at_label x))) ->
   (forall l, In l (b_txs bm) -> (l < ch_next_label ch)%nat) ->
   (at_label a < ch_next_label ch)%nat -> ~ In (at_label a) (map at_label (ch_inflight ch)) ->
-  (at_probe a = false -> Z.of_nat (count_occ Nat.eq_dec (b_txs bm) (at_label a)) = at_try a + 1) ->
+  (at_probe a = false -> at_try a + 1 <= Z.of_nat (count_occ Nat.eq_dec (b_txs bm) (at_label a))) ->
   requeue ch a status c = Ok (ch', obs) ->
   exists bm', bmon_run bm obs = Some bm' /\ inv bm' ch' /\
     (ch_next_label ch <= ch_next_label ch')%nat /\
@@ -1841,8 +1851,8 @@ Proof.
         set (st := if (if status =? ARES_SUCCESS then at_err a else status) =? ARES_SUCCESS then ARES_ETIMEOUT else (if status =? ARES_SUCCESS then at_err a else status)).
         destruct ((st =? ARES_SUCCESS) || (st =? ARES_ECANCELLED) || (st =? ARES_EDESTRUCTION)); [reflexivity|].
         unfold requeue_sends in Hs. rewrite Hp in Hs. cbn [negb] in Hs. rewrite andb_true_r in Hs.
-        apply Z.ltb_ge in Hs. rewrite Hns, Htr, (Hca eq_refl).
-        destruct (Z.leb_spec (Z.of_nat (length (ch_servers ch)) * ch_tries ch) (at_try a + 1)); [reflexivity|lia].
+        apply Z.ltb_ge in Hs. rewrite Hns, Htr. pose proof (Hca eq_refl) as Hca'.
+        destruct (Z.leb_spec (Z.of_nat (length (ch_servers ch)) * ch_tries ch) (Z.of_nat (count_occ Nat.eq_dec (b_txs bm) (at_label a)))); [reflexivity|lia].
       * split; [constructor; assumption|]. split; [lia|]. split; [intros x Hx; exact Hx|reflexivity].
 Qed.
 
@@ -2047,7 +2057,7 @@ Qed.
 Lemma step_inv bm ch ev ch' obs :
   inv bm ch -> step ch ev = Ok (ch', obs) -> exists bm', bmon_run bm obs = Some bm' /\ inv bm' ch'.
 Proof.
-  intros Hinv H. destruct ev as [c|label|label status c|label c|ms| |a0 cs0|addrs cs]; cbn [step] in H.
+  intros Hinv H. destruct ev as [c|label|label status c|label c|ms| |tl tc|a0 cs0|addrs cs]; cbn [step] in H.
   - (* EvSend *)
     destruct Hinv as [Hwf Hlab Hpi Htr Hns Hcnt Htx]. destruct Hlab as (Hnd & Hlt).
     destruct (Nat.eqb_spec (length (ch_servers ch)) 0) as [He|Hne].
@@ -2065,7 +2075,7 @@ Proof.
       * intros l Hl. cbn. specialize (Htx l Hl). lia.
       * cbn. lia.
       * intros Hin. apply in_map_iff in Hin. destruct Hin as (z & Hz & Hzin). specialize (Hlt z Hzin). cbn in Hzin. lia.
-      * rewrite (count_occ_fresh _ _ Htx). reflexivity.
+      * lia.
       * exact H.
       * exists bm'. split; [exact Hrun|constructor; assumption].
   - (* EvAnswer *)
@@ -2130,6 +2140,26 @@ Proof.
            congruence.
       * fold lc. rewrite Hns. rewrite <- (map_length key lc), Hck, map_length. reflexivity.
       * intros a [].
+  - (* EvTruncated *)
+    destruct (find_attempt tl (ch_inflight ch)) as [a|] eqn:Hfa; [|discriminate].
+    destruct (at_probe a) eqn:Hpa; [discriminate|].
+    destruct (find_attempt_some _ _ _ Hfa) as (Hain & Hal). subst tl.
+    destruct Hinv as [Hwf Hlab Hpi Htr Hns Hcnt Htx].
+    destruct (labels_ok_remove ch (at_label a) Hlab) as (Hlab0 & Hfresh).
+    set (ch0 := set_inflight ch (remove_attempt (at_label a) (ch_inflight ch))) in *.
+    assert (probe_inv_but None ch0) as Hpi0.
+    { intros b s1 Hfb Hpb Hne. cbn [ch_servers ch_inflight set_inflight ch0] in Hfb |- *.
+      destruct (Hpi b s1 Hfb Hpb Hne) as (x & Hx & Hxp & Hxs).
+      exists x. split; [|split; assumption]. apply witness_survives; try assumption. intros ->. congruence. }
+    destruct (fresh_inv bm ch0 None (at_label a) (at_try a) (at_err a) tc ch' obs Hwf Hlab0 Hpi0 Htr Hns)
+      as (bm' & Hrun & Hwf' & Hlab' & Hpi' & Htr' & Hns' & Hcnt' & Htx' & _).
+    + intros x Hx Hpx. apply Hcnt; [eapply remove_attempt_in; exact Hx|exact Hpx].
+    + exact Htx.
+    + destruct Hlab as (_ & Hlt). apply Hlt. exact Hain.
+    + exact Hfresh.
+    + specialize (Hcnt a Hain Hpa). lia.
+    + exact H.
+    + exists bm'. split; [exact Hrun|constructor; assumption].
   - (* EvConnLost *)
     destruct Hinv as [Hwf Hlab Hpi Htr Hns Hcnt Htx].
     destruct (find_addr a0 (ch_servers ch)) as [s0|] eqn:Hf0; [|discriminate].
@@ -2481,7 +2511,7 @@ Qed.
 
 Lemma step_dmon ch ev ch' obs : step ch ev = Ok (ch', obs) -> dmon_run None obs = Some None.
 Proof.
-  intros H. destruct ev as [c|label|label status c|label c|ms| |a0 cs0|addrs cs]; cbn [step] in H.
+  intros H. destruct ev as [c|label|label status c|label c|ms| |tl tc|a0 cs0|addrs cs]; cbn [step] in H.
   - apply dmon_quiet. destruct (Nat.eqb _ 0).
     + injection H as <- <-. intros a b Hin; cbn [In] in Hin; intuition discriminate.
     + eapply send_fresh_quiet; exact H.
@@ -2495,6 +2525,8 @@ Proof.
     apply dmon_quiet. eapply fail_attempt_quiet; exact H.
   - destruct (c_timeadd _ _ _); cbn [bind] in H; try discriminate. injection H as <- <-. reflexivity.
   - injection H as <- <-. apply dmon_quiet. intros a b Hin. apply in_map_iff in Hin. destruct Hin as (x & Hx & _). discriminate.
+  - destruct (find_attempt tl (ch_inflight ch)) as [a|]; [|discriminate].
+    destruct (at_probe a); [discriminate|]. apply dmon_quiet. eapply send_fresh_quiet; exact H.
   - destruct (find_addr a0 (ch_servers ch)); [|discriminate].
     destruct (server_increment_failures _ _ _ _) as [l1| |]; cbn [bind] in H; try discriminate.
     destruct (requeue_all _ _ _ _ _) as [[ch2 o2]| |] eqn:Hrq; cbn [bind fst snd] in H; try discriminate.
@@ -2534,4 +2566,22 @@ Proof.
   destruct (server_increment_failures _ _ _ _) as [l1| |]; cbn [bind] in H; try discriminate.
   destruct (requeue_all _ _ _ _ _) as [[ch2 o2]| |] eqn:Hrq; cbn [bind fst snd] in H; try discriminate.
   injection H as <- <-. eexists. eexists. split; [reflexivity|]. split; [eapply requeue_all_quiet; exact Hrq|reflexivity].
+Qed.
+
+(* A truncated UDP answer is followed by a FRESH selection: the TCP attempt goes to a server
+   with the fewest consecutive failures of the table as it is when the TC answer arrives (the
+   first such in configuration order without rotation) - whichever server sent the TC answer,
+   and whatever happened to it while the UDP attempt was outstanding. *)
+Lemma truncated_fresh ch label c ch' obs :
+  wf (ch_servers ch) -> step ch (EvTruncated label c) = Ok (ch', obs) ->
+  forall l a, In (OTx l a false) obs -> l = label /\ fresh_ok (ch_rotate ch) (ch_servers ch) a.
+Proof.
+  intros Hwf H l a Hin. cbn [step] in H.
+  destruct (find_attempt label (ch_inflight ch)) as [x|] eqn:Hfa; [|discriminate].
+  destruct (at_probe x); [discriminate|].
+  destruct (send_fresh_shape (set_inflight ch (remove_attempt label (ch_inflight ch))) _ _ _ _ _ _ Hwf H) as (Hsh & _).
+  inversion Hsh; subst; cbn [In] in Hin.
+  - destruct Hin as [Hin|[]]; discriminate.
+  - destruct Hin as [Hin|[]]. injection Hin as <- <-. split; [reflexivity|assumption].
+  - destruct Hin as [Hin|[Hin|[]]]; [|discriminate]. injection Hin as <- <-. split; [reflexivity|assumption].
 Qed.
